@@ -131,7 +131,7 @@ def run(seed, tier, lean) -> Result:
                       'flat or nested association form) and to a securiCAD archive (XML in a zip, attacker on either side of firstSteps), loaded by the real '
                       'legacy loaders and compared with the real native loader on the native file, and with the Lean models of the loaders; non-trivial = '
                       'the model has an attacker with >= 2 entry points and an association')
-    n = 160 if tier == 'quick' else 6000
+    n = 160 if tier == 'quick' else 960
     cases = []
     for i in range(n):
         r = random.Random(rnd.getrandbits(48))
